@@ -1366,7 +1366,9 @@ impl DB {
                     allow_write_delay = false;
                 });
             } else if !force_compaction
-                && (self.memtable().approximate_memory_usage() <= self.options.max_memtable_size())
+                && (self.memtable().is_empty()
+                    || self.memtable().approximate_memory_usage()
+                        <= self.options.max_memtable_size())
             {
                 log::debug!("There is room in the memtable for writes. Proceeding with write.");
                 return Ok(());
